@@ -15,6 +15,10 @@ successful one-byte read lies strictly below `u32::MAX` (so `self.cursor += 1` c
 yields a byte.  `ofView_wf` / `ofRaw_wf` prove it for the two implementations (buffers < 4 GiB). -/
 structure ScanI.WF (S : ScanI) : Prop where
   read1 : ∀ rva v, S.read 1 rva = some v → rva + 1 < 4294967296 ∧ v < 256
+  /-- a `w`-byte read yields a `w`-byte value -/
+  read_lt : ∀ w rva v, S.read w rva = some v → v < 256 ^ w
+  /-- `pointer` yields an `Rva` (`u32`) -/
+  pointer_lt : ∀ va r, S.pointer va = some r → r < 4294967296
 
 /-! ### one loop iteration -/
 
@@ -497,15 +501,34 @@ theorem run_save_indep (S : ScanI) (pat : List Atom) (hnr : pat.all Scan.noRead 
 
 /-! ### the two implementations of `trait Scan` satisfy `ScanI.WF` -/
 
+theorem leN_lt (b : Bytes) (w off : Nat) : leN b w off < 256 ^ w := by
+  unfold leN
+  split
+  · exact byteAt_lt _ _
+  · exact le16_lt _ _
+  · exact le32_lt _ _
+  · exact le64_lt _ _
+  · exact Nat.pow_pos (by decide)
+
 theorem ofRaw_wf (f : Pe.Fmt) (b : Bytes) (hb : b.size < 4294967296) : (ofRaw f b).WF := by
-  constructor
-  intro rva v h
-  simp only [ofRaw] at h
-  split at h
-  · simp only [Option.some.injEq] at h
-    subst h
-    exact ⟨by omega, byteAt_lt _ _⟩
-  · cases h
+  refine ⟨?_, ?_, ?_⟩
+  · intro rva v h
+    simp only [ofRaw] at h
+    split at h
+    · simp only [Option.some.injEq] at h
+      subst h
+      exact ⟨by omega, byteAt_lt _ _⟩
+    · cases h
+  · intro w rva v h
+    simp only [ofRaw] at h
+    split at h
+    · simp only [Option.some.injEq] at h
+      subst h
+      exact leN_lt _ _ _
+    · cases h
+  · intro va r h
+    simp only [ofRaw, Option.some.injEq] at h
+    omega
 
 open Pelite.Pe in
 /-- what a successful `read` on a mapped view returned -/
@@ -555,17 +578,522 @@ succeeds lies strictly below `u32::MAX` — on file views because the section's 
 `va.wrapping_add(max(vs, rs))` is a `u32` above the rva, on mapped views because the rva is inside
 the buffer. -/
 theorem ofView_wf (v : Pe.View) (hsz : v.b.size < 4294967296) : (ofView v).WF := by
-  constructor
-  intro rva x h
-  cases hk : v.kind with
-  | view =>
-    obtain ⟨_, h2, rfl⟩ := ofView_read_view hk h
-    exact ⟨by omega, byteAt_lt _ _⟩
-  | file =>
-    obtain ⟨s, o, l, hf, _, rfl⟩ := ofView_read_file hk h
-    have hc := (containsRva_iff s rva).1 (firstV_some hf).2
-    refine ⟨?_, byteAt_lt _ _⟩
-    have : wadd32 s.va (max s.vs s.rs) < 4294967296 := by unfold wadd32; omega
-    omega
+  refine ⟨?_, ?_, ?_⟩
+  · intro rva x h
+    cases hk : v.kind with
+    | view =>
+      obtain ⟨_, h2, rfl⟩ := ofView_read_view hk h
+      exact ⟨by omega, byteAt_lt _ _⟩
+    | file =>
+      obtain ⟨s, o, l, hf, _, rfl⟩ := ofView_read_file hk h
+      have hc := (containsRva_iff s rva).1 (firstV_some hf).2
+      refine ⟨?_, byteAt_lt _ _⟩
+      have : wadd32 s.va (max s.vs s.rs) < 4294967296 := by unfold wadd32; omega
+      omega
+  · intro w rva x h
+    simp only [ofView] at h
+    split at h
+    · simp only [Option.some.injEq] at h
+      subst h
+      exact leN_lt _ _ _
+    · cases h
+  · intro va r h
+    simp only [ofView, View.vaToRva] at h
+    have := le32_lt v.b (optOff v.b + 56)
+    split at h
+    · next r' hr =>
+      split at hr
+      · cases hr
+      · split at hr
+        · cases hr
+        · simp only [Out.ok.injEq] at hr
+          simp only [Option.some.injEq] at h
+          unfold sizeOfImage at *
+          omega
+    · cases h
+
+/-! ### the model's integers stay in their machine ranges -/
+
+theorem vtypeName_lt {S : ScanI} {c r : Nat} (h : vtypeName S c = some r) : r < 4294967296 := by
+  unfold vtypeName at h
+  split at h <;> split at h <;> try (cases h; done)
+  all_goals
+    simp only [Option.bind_eq_bind, Option.bind_eq_some_iff, Option.some.injEq] at h
+    obtain ⟨_, _, _, _, h⟩ := h
+    first
+    | (obtain ⟨_, _, _, _, h⟩ := h; subst h; unfold wadd32; omega)
+    | (obtain ⟨_, _, h⟩ := h; subst h; unfold wadd32; omega)
+
+/-- one iteration keeps the cursor a `u32` -/
+theorem step_cursor_lt {S : ScanI} (hS : S.WF) {a : Atom} {st : St} {m e : Nat} {st' : St} {m' e' : Nat}
+    (h : step S a st m e = .ok (some (st', m', e'))) (hc : st.cursor < 4294967296) : st'.cursor < 4294967296 := by
+  cases a with
+  | ptr =>
+    simp only [step] at h
+    split at h
+    · next rva hb =>
+      simp only [Out.ok.injEq, Option.some.injEq, Prod.mk.injEq] at h
+      obtain ⟨rfl, _⟩ := h
+      rcases Option.bind_eq_some_iff.1 hb with ⟨va, _, hp⟩
+      exact hS.pointer_lt _ _ hp
+    · cases h
+  | vTypeName =>
+    simp only [step] at h
+    split at h
+    · next c hv =>
+      simp only [Out.ok.injEq, Option.some.injEq, Prod.mk.injEq] at h
+      obtain ⟨rfl, _⟩ := h
+      exact vtypeName_lt hv
+    · cases h
+  | _ =>
+    simp only [step] at h <;> (repeat' split at h) <;>
+    simp only [Out.ok.injEq, Option.some.injEq, Prod.mk.injEq, reduceCtorEq] at h <;>
+    (try (obtain ⟨rfl, _⟩ := h)) <;> (try (cases h; done)) <;>
+    (try (simp only [wadd32, wsub32]; omega)) <;> (try exact hc)
+
+theorem manyLoop_cursor_lt {mem : Bytes} {ex : St → Out (Bool × St)} {cursor pc off : Nat} {peek : Option Nat}
+    (hex : ∀ s b s', ex s = .ok (b, s') → s.cursor < 4294967296 → s'.cursor < 4294967296) :
+    ∀ k i st b st', manyLoop mem ex cursor pc off peek k i st = .ok (b, st') →
+      st.cursor < 4294967296 → st'.cursor < 4294967296 := by
+  intro k
+  induction k with
+  | zero => intro i st b st' h hp; simp only [manyLoop] at h; cases h; exact hp
+  | succ k ih =>
+    intro i st b st' h hp
+    simp only [manyLoop] at h
+    split at h
+    · have hw : wadd32 cursor i < 4294967296 := by unfold wadd32; omega
+      split at h
+      · next s'' hs => cases h; exact hex _ _ _ hs hw
+      · next s'' hs => exact ih _ _ _ _ h (hex _ _ _ hs hw)
+      · next hn1 hn2 =>
+        cases b with
+        | false => exact (hn2 _ h).elim
+        | true => exact (hn1 _ h).elim
+    · exact ih _ _ _ _ h hp
+
+/-- `self.cursor` is a `u32` throughout (the model's `Nat` never leaves the machine range) -/
+theorem exec_cursor_lt {S : ScanI} (hS : S.WF) (pat : List Atom) :
+    ∀ fuel st mask ext b st', exec S pat fuel st mask ext = .ok (b, st') →
+      st.cursor < 4294967296 → st'.cursor < 4294967296 := by
+  intro fuel st mask ext
+  fun_induction exec S pat fuel st mask ext with
+  | case1 => intro b st' h; cases h
+  | case2 => intro b st' h hc; cases h; exact hc
+  | case3 fuel st0 mask ext st skip cursor st1 h1 hp ih2 ih1 =>
+    intro b st' h hc
+    exact ih1 _ _ h (by simp only [cursor, wadd32]; omega)
+  | case4 fuel st0 mask ext st skip hp hne ih1 => intro b st' h hc; exact ih1 _ _ h hc
+  | case5 fuel st0 mask ext st hp => intro b st' h hc; cases h; exact hc
+  | case6 fuel st0 mask ext st limit hp ih1 =>
+    intro b st' h hc
+    obtain ⟨hlt, _⟩ := List.getElem?_eq_some_iff.1 hp
+    cases hsl : S.slice st.cursor with
+    | none => rw [execMany_none hsl] at h; cases h; exact hc
+    | some ol =>
+      obtain ⟨off, len⟩ := ol
+      rw [execMany_some hsl (by simp only [st]; omega)] at h
+      exact manyLoop_cursor_lt (fun s b s' hs => ih1 s b s' hs) _ _ _ _ _ h hc
+  | case7 fuel st0 mask ext st next st1 h1 hp ih2 ih1 =>
+    intro b st' h hc
+    exact ih1 _ _ h (ih2 _ _ h1 hc)
+  | case8 fuel st0 mask ext st next st1 h1 hp ih2 ih1 => intro b st' h hc; exact ih1 _ _ h hc
+  | case9 fuel st0 mask ext st next hp hn1 hn2 ih1 => intro b st' h hc; exact ih1 _ _ h hc
+  | case10 fuel st0 mask ext st next hp => intro b st' h hc; cases h; exact hc
+  | case11 fuel st0 mask ext st a _ _ _ _ _ hs hp => intro b st' h hc; cases h; exact hc
+  | case12 fuel st0 mask ext st a _ _ _ _ _ st1 m1 e1 hs hp ih1 =>
+    intro b st' h hc
+    exact ih1 _ _ h (step_cursor_lt hS hs hc)
+  | case13 => intro b st' h; cases h
+  | case14 => intro b st' h; cases h
+  | case15 => intro b st' h; cases h
+  | case16 => intro b st' h; cases h
+
+theorem manyLoop_pc_bound {mem : Bytes} {ex : St → Out (Bool × St)} {cursor pc off : Nat} {peek : Option Nat} (B : Nat)
+    (hex : ∀ s b s', ex s = .ok (b, s') → s.pc ≤ B → s'.pc ≤ B) (hpc : pc ≤ B) :
+    ∀ k i st b st', manyLoop mem ex cursor pc off peek k i st = .ok (b, st') → st.pc ≤ B → st'.pc ≤ B := by
+  intro k
+  induction k with
+  | zero => intro i st b st' h hp; simp only [manyLoop] at h; cases h; exact hp
+  | succ k ih =>
+    intro i st b st' h hp
+    simp only [manyLoop] at h
+    split at h
+    · split at h
+      · next s'' hs => cases h; exact hex _ _ _ hs hpc
+      · next s'' hs => exact ih _ _ _ _ h (hex _ _ _ hs hpc)
+      · next hn1 hn2 =>
+        cases b with
+        | false => exact (hn2 _ h).elim
+        | true => exact (hn1 _ h).elim
+    · exact ih _ _ _ _ h hp
+
+/-- `self.pc` never exceeds `pat.len() + 255` (a `Break` / failed `Case` may move it past the end by
+at most its `u8` argument, after which the loop ends): the `usize` additions cannot overflow. -/
+theorem exec_pc_le (S : ScanI) (pat : List Atom) (hok : pat.all Atom.ok = true) :
+    ∀ fuel st mask ext b st', exec S pat fuel st mask ext = .ok (b, st') →
+      st.pc ≤ pat.length + 255 → st'.pc ≤ pat.length + 255 := by
+  intro fuel st mask ext
+  fun_induction exec S pat fuel st mask ext with
+  | case1 => intro b st' h; cases h
+  | case2 => intro b st' h hc; cases h; exact hc
+  | case3 fuel st0 mask ext st skip cursor st1 h1 hp ih2 ih1 =>
+    intro b st' h hc
+    obtain ⟨hlt, _⟩ := List.getElem?_eq_some_iff.1 hp
+    have h2 := ih2 _ _ h1 (by simp only [st]; omega)
+    exact ih1 _ _ h h2
+  | case4 fuel st0 mask ext st skip hp hne ih1 =>
+    intro b st' h hc
+    obtain ⟨hlt, _⟩ := List.getElem?_eq_some_iff.1 hp
+    exact ih1 _ _ h (by simp only [st]; omega)
+  | case5 fuel st0 mask ext st hp =>
+    intro b st' h hc; cases h
+    obtain ⟨hlt, _⟩ := List.getElem?_eq_some_iff.1 hp
+    simp only [st]; omega
+  | case6 fuel st0 mask ext st limit hp ih1 =>
+    intro b st' h hc
+    obtain ⟨hlt, _⟩ := List.getElem?_eq_some_iff.1 hp
+    cases hsl : S.slice st.cursor with
+    | none => rw [execMany_none hsl] at h; cases h; simp only [st]; omega
+    | some ol =>
+      obtain ⟨off, len⟩ := ol
+      rw [execMany_some hsl (by simp only [st]; omega)] at h
+      exact manyLoop_pc_bound _ (fun s b s' hs => ih1 s b s' hs) (by simp only [st]; omega) _ _ _ _ _ h (by simp only [st]; omega)
+  | case7 fuel st0 mask ext st next st1 h1 hp ih2 ih1 =>
+    intro b st' h hc
+    obtain ⟨hlt, _⟩ := List.getElem?_eq_some_iff.1 hp
+    have h2 := ih2 _ _ h1 (by simp only [st]; omega)
+    exact ih1 _ _ h h2
+  | case8 fuel st0 mask ext st next st1 h1 hp ih2 ih1 =>
+    intro b st' h hc
+    obtain ⟨hlt, _⟩ := List.getElem?_eq_some_iff.1 hp
+    have hn : next < 256 := by simpa [Atom.ok] using List.all_eq_true.1 hok _ (List.mem_of_getElem? hp)
+    exact ih1 _ _ h (by simp only [st]; omega)
+  | case9 fuel st0 mask ext st next hp hn1 hn2 ih1 =>
+    intro b st' h hc
+    obtain ⟨hlt, _⟩ := List.getElem?_eq_some_iff.1 hp
+    exact ih1 _ _ h (by simp only [st]; omega)
+  | case10 fuel st0 mask ext st next hp =>
+    intro b st' h hc; cases h
+    obtain ⟨hlt, _⟩ := List.getElem?_eq_some_iff.1 hp
+    have hn : next < 256 := by simpa [Atom.ok] using List.all_eq_true.1 hok _ (List.mem_of_getElem? hp)
+    simp only [st]; omega
+  | case11 fuel st0 mask ext st a _ _ _ _ _ hs hp =>
+    intro b st' h hc; cases h
+    obtain ⟨hlt, _⟩ := List.getElem?_eq_some_iff.1 hp
+    simp only [st]; omega
+  | case12 fuel st0 mask ext st a _ _ _ _ _ st1 m1 e1 hs hp ih1 =>
+    intro b st' h hc
+    obtain ⟨hlt, _⟩ := List.getElem?_eq_some_iff.1 hp
+    have := step_pc hs
+    exact ih1 _ _ h (by simp only [st] at this; omega)
+  | case13 => intro b st' h; cases h
+  | case14 => intro b st' h; cases h
+  | case15 => intro b st' h; cases h
+  | case16 => intro b st' h; cases h
+
+/-- every slot of the save array is a `u32` -/
+def SaveOK (save : Array Nat) : Prop := ∀ (i v : Nat), save[i]? = some v → v < 4294967296
+
+theorem saveSet_ok {save : Array Nat} (hs : SaveOK save) (slot : Nat) {v : Nat} (hv : v < 4294967296) :
+    SaveOK (saveSet save slot v) := by
+  intro i x hx
+  simp only [saveSet, Array.getElem?_setIfInBounds] at hx
+  split at hx
+  · split at hx
+    · cases hx; exact hv
+    · cases hx
+  · exact hs i x hx
+
+theorem saveSet_size (save : Array Nat) (slot v : Nat) : (saveSet save slot v).size = save.size := by
+  simp [saveSet]
+
+theorem sext8_lt {v : Nat} (h : v < 256) : sext8 v < 4294967296 := by unfold sext8; split <;> omega
+theorem sext16_lt {v : Nat} (h : v < 65536) : sext16 v < 4294967296 := by unfold sext16; split <;> omega
+
+/-- one iteration keeps every save slot a `u32` and the length of the save array -/
+theorem step_save_ok {S : ScanI} (hS : S.WF) {a : Atom} {st : St} {m e : Nat} {st' : St} {m' e' : Nat}
+    (h : step S a st m e = .ok (some (st', m', e'))) (hc : st.cursor < 4294967296) (hs : SaveOK st.save) :
+    SaveOK st'.save ∧ st'.save.size = st.save.size := by
+  cases a <;> simp only [step] at h <;> (repeat' split at h) <;>
+    simp only [Out.ok.injEq, Option.some.injEq, Prod.mk.injEq, reduceCtorEq] at h <;>
+    (try (obtain ⟨rfl, _⟩ := h)) <;> (try (cases h; done)) <;>
+    first
+    | exact ⟨hs, rfl⟩
+    | exact ⟨saveSet_ok hs _ hc, saveSet_size _ _ _⟩
+    | exact ⟨saveSet_ok hs _ (by decide), saveSet_size _ _ _⟩
+    | exact ⟨saveSet_ok hs _ (sext8_lt (by have := hS.read_lt _ _ _ (by assumption); simpa using this)), saveSet_size _ _ _⟩
+    | exact ⟨saveSet_ok hs _ (sext16_lt (by have := hS.read_lt _ _ _ (by assumption); simpa using this)), saveSet_size _ _ _⟩
+    | exact ⟨saveSet_ok hs _ (by have := hS.read_lt _ _ _ (by assumption); simp at this; omega), saveSet_size _ _ _⟩
+
+/-- the state stays in machine range: cursor and every save slot are `u32`s, the save array keeps
+its length (`save: &mut [Rva]`) -/
+def St.InRange (n : Nat) (st : St) : Prop :=
+  st.cursor < 4294967296 ∧ SaveOK st.save ∧ st.save.size = n
+
+theorem manyLoop_inRange {mem : Bytes} {ex : St → Out (Bool × St)} {cursor pc off : Nat} {peek : Option Nat} (n : Nat)
+    (hex : ∀ s b s', ex s = .ok (b, s') → s.InRange n → s'.InRange n) :
+    ∀ k i st b st', manyLoop mem ex cursor pc off peek k i st = .ok (b, st') → st.InRange n → st'.InRange n := by
+  intro k
+  induction k with
+  | zero => intro i st b st' h hp; simp only [manyLoop] at h; cases h; exact hp
+  | succ k ih =>
+    intro i st b st' h hp
+    simp only [manyLoop] at h
+    split at h
+    · have hw : St.InRange n { st with cursor := wadd32 cursor i, pc := pc } :=
+        ⟨by simp only [wadd32]; omega, hp.2.1, hp.2.2⟩
+      split at h
+      · next s'' hs => cases h; exact hex _ _ _ hs hw
+      · next s'' hs => exact ih _ _ _ _ h (hex _ _ _ hs hw)
+      · next hn1 hn2 =>
+        cases b with
+        | false => exact (hn2 _ h).elim
+        | true => exact (hn1 _ h).elim
+    · exact ih _ _ _ _ h hp
+
+/-- **the model's integers are the machine's**: started with a `u32` cursor and `u32` save slots,
+`exec` keeps them `u32`s (every `Nat` the model manipulates is the value the Rust code holds) and
+never changes the length of the save array. -/
+theorem exec_inRange {S : ScanI} (hS : S.WF) (pat : List Atom) (n : Nat) :
+    ∀ fuel st mask ext b st', exec S pat fuel st mask ext = .ok (b, st') → st.InRange n → st'.InRange n := by
+  intro fuel st mask ext
+  fun_induction exec S pat fuel st mask ext with
+  | case1 => intro b st' h; cases h
+  | case2 => intro b st' h hc; cases h; exact hc
+  | case3 fuel st0 mask ext st skip cursor st1 h1 hp ih2 ih1 =>
+    intro b st' h hc
+    have h2 := ih2 _ _ h1 hc
+    exact ih1 _ _ h ⟨by simp only [cursor, wadd32]; omega, h2.2.1, h2.2.2⟩
+  | case4 fuel st0 mask ext st skip hp hne ih1 => intro b st' h hc; exact ih1 _ _ h hc
+  | case5 fuel st0 mask ext st hp => intro b st' h hc; cases h; exact hc
+  | case6 fuel st0 mask ext st limit hp ih1 =>
+    intro b st' h hc
+    obtain ⟨hlt, _⟩ := List.getElem?_eq_some_iff.1 hp
+    cases hsl : S.slice st.cursor with
+    | none => rw [execMany_none hsl] at h; cases h; exact hc
+    | some ol =>
+      obtain ⟨off, len⟩ := ol
+      rw [execMany_some hsl (by simp only [st]; omega)] at h
+      exact manyLoop_inRange n (fun s b s' hs => ih1 s b s' hs) _ _ _ _ _ h hc
+  | case7 fuel st0 mask ext st next st1 h1 hp ih2 ih1 =>
+    intro b st' h hc
+    exact ih1 _ _ h (ih2 _ _ h1 hc)
+  | case8 fuel st0 mask ext st next st1 h1 hp ih2 ih1 =>
+    intro b st' h hc
+    have h2 := ih2 _ _ h1 hc
+    exact ih1 _ _ h ⟨hc.1, h2.2.1, h2.2.2⟩
+  | case9 fuel st0 mask ext st next hp hn1 hn2 ih1 => intro b st' h hc; exact ih1 _ _ h hc
+  | case10 fuel st0 mask ext st next hp => intro b st' h hc; cases h; exact hc
+  | case11 fuel st0 mask ext st a _ _ _ _ _ hs hp => intro b st' h hc; cases h; exact hc
+  | case12 fuel st0 mask ext st a _ _ _ _ _ st1 m1 e1 hs hp ih1 =>
+    intro b st' h hc
+    have h2 := step_save_ok hS hs hc.1 hc.2.1
+    exact ih1 _ _ h ⟨step_cursor_lt hS hs hc.1, h2.1, by rw [h2.2]; exact hc.2.2⟩
+  | case13 => intro b st' h; cases h
+  | case14 => intro b st' h; cases h
+  | case15 => intro b st' h; cases h
+  | case16 => intro b st' h; cases h
+
+/-! ### the captures do not depend on stale save contents -/
+
+/-- slot by slot: after the two runs either both arrays hold the same value, or each still holds
+what it was given (the runs did not write the slot) -/
+def SaveRel (s1 s2 t1 t2 : Array Nat) : Prop :=
+  t1.size = t2.size ∧ ∀ i : Nat, t1[i]? = t2[i]? ∨ (t1[i]? = s1[i]? ∧ t2[i]? = s2[i]?)
+
+theorem SaveRel.refl {s1 s2 : Array Nat} (h : s1.size = s2.size) : SaveRel s1 s2 s1 s2 :=
+  ⟨h, fun _ => .inr ⟨rfl, rfl⟩⟩
+
+theorem SaveRel.trans {s1 s2 t1 t2 u1 u2 : Array Nat} (h1 : SaveRel s1 s2 t1 t2) (h2 : SaveRel t1 t2 u1 u2) :
+    SaveRel s1 s2 u1 u2 := by
+  refine ⟨h2.1, fun i => ?_⟩
+  rcases h2.2 i with h | ⟨ha, hb⟩
+  · exact .inl h
+  · rcases h1.2 i with h | ⟨hc, hd⟩
+    · exact .inl (by rw [ha, hb, h])
+    · exact .inr ⟨by rw [ha, hc], by rw [hb, hd]⟩
+
+theorem SaveRel.set {s1 s2 t1 t2 : Array Nat} (h : SaveRel s1 s2 t1 t2) (k v : Nat) :
+    SaveRel s1 s2 (saveSet t1 k v) (saveSet t2 k v) := by
+  refine ⟨by simp [saveSet, h.1], fun i => ?_⟩
+  simp only [saveSet, Array.getElem?_setIfInBounds, h.1]
+  by_cases hk : k = i
+  · simp [hk]
+  · simp only [hk, if_false]; exact h.2 i
+
+inductive OSim2 (s1 s2 : Array Nat) : Out (Bool × St) → Out (Bool × St) → Prop
+  | ok (b : Bool) (u1 u2 : St) : u1.pc = u2.pc → u1.cursor = u2.cursor → SaveRel s1 s2 u1.save u2.save →
+      OSim2 s1 s2 (.ok (b, u1)) (.ok (b, u2))
+  | err (e : Err) : OSim2 s1 s2 (.err e) (.err e)
+  | panic (s : String) : OSim2 s1 s2 (.panic s) (.panic s)
+  | ub (s : String) : OSim2 s1 s2 (.ub s) (.ub s)
+  | diverge : OSim2 s1 s2 .diverge .diverge
+
+theorem OSim2.lift {s1 s2 t1 t2 : Array Nat} {o1 o2 : Out (Bool × St)} (hr : SaveRel s1 s2 t1 t2)
+    (h : OSim2 t1 t2 o1 o2) : OSim2 s1 s2 o1 o2 := by
+  cases h with
+  | ok b u1 u2 h1 h2 h3 => exact .ok b u1 u2 h1 h2 (hr.trans h3)
+  | err e => exact .err e
+  | panic s => exact .panic s
+  | ub s => exact .ub s
+  | diverge => exact .diverge
+
+inductive SSim2 (s1 s2 : Array Nat) : Out (Option (St × Nat × Nat)) → Out (Option (St × Nat × Nat)) → Prop
+  | none : SSim2 s1 s2 (.ok none) (.ok none)
+  | some (u1 u2 : St) (m e : Nat) : u1.pc = u2.pc → u1.cursor = u2.cursor → SaveRel s1 s2 u1.save u2.save →
+      SSim2 s1 s2 (.ok (some (u1, m, e))) (.ok (some (u2, m, e)))
+  | err (e : Err) : SSim2 s1 s2 (.err e) (.err e)
+  | panic (s : String) : SSim2 s1 s2 (.panic s) (.panic s)
+  | ub (s : String) : SSim2 s1 s2 (.ub s) (.ub s)
+  | diverge : SSim2 s1 s2 .diverge .diverge
+
+theorem step_sim2 {S : ScanI} {a : Atom} (ha : Scan.noRead a = true) (pc cur : Nat) (s1 s2 : Array Nat)
+    (hsz : s1.size = s2.size) (m e : Nat) :
+    SSim2 s1 s2 (step S a ⟨pc, cur, s1⟩ m e) (step S a ⟨pc, cur, s2⟩ m e) := by
+  have hr := SaveRel.refl hsz
+  cases a <;> simp [Scan.noRead] at ha <;> simp only [step] <;> (repeat' split) <;>
+    first
+    | exact .none
+    | exact .some _ _ _ _ rfl rfl hr
+    | exact .some _ _ _ _ rfl rfl (hr.set _ _)
+    | exact .panic _
+    | (simp_all; done)
+
+theorem manyLoop_sim2 {mem : Bytes} {ex : St → Out (Bool × St)} {cursor pc off : Nat} {peek : Option Nat}
+    (hex : ∀ pc cur a1 a2, a1.size = a2.size → OSim2 a1 a2 (ex ⟨pc, cur, a1⟩) (ex ⟨pc, cur, a2⟩)) :
+    ∀ k i pc0 cur0 t1 t2, t1.size = t2.size →
+      OSim2 t1 t2 (manyLoop mem ex cursor pc off peek k i ⟨pc0, cur0, t1⟩)
+        (manyLoop mem ex cursor pc off peek k i ⟨pc0, cur0, t2⟩) := by
+  intro k
+  induction k with
+  | zero => intro i pc0 cur0 t1 t2 hsz; exact .ok _ _ _ rfl rfl (SaveRel.refl hsz)
+  | succ k ih =>
+    intro i pc0 cur0 t1 t2 hsz
+    simp only [manyLoop]
+    split
+    · have h := hex pc (wadd32 cursor i) t1 t2 hsz
+      generalize ex ⟨pc, wadd32 cursor i, t1⟩ = o1 at h
+      generalize ex ⟨pc, wadd32 cursor i, t2⟩ = o2 at h
+      cases h with
+      | ok b u1 u2 hpc hcur hrel =>
+        cases b
+        · obtain ⟨p1, c1, v1⟩ := u1
+          obtain ⟨p2, c2, v2⟩ := u2
+          simp only at hpc hcur hrel
+          subst hpc hcur
+          exact (ih _ _ _ _ _ hrel.1).lift hrel
+        · exact .ok _ _ _ hpc hcur hrel
+      | err e => exact .err e
+      | panic s => exact .panic s
+      | ub s => exact .ub s
+      | diverge => exact .diverge
+    · exact ih _ _ _ _ _ hsz
+
+/-- For a pattern without `Check` / `Pir`, run on two save arrays of the same length: same outcome,
+and every slot afterwards holds the same value in both or was written by neither. -/
+theorem exec_sim2 (S : ScanI) (pat : List Atom) (hnr : pat.all Scan.noRead = true) :
+    ∀ fuel pc cur t1 t2 m e, t1.size = t2.size →
+      OSim2 t1 t2 (exec S pat fuel ⟨pc, cur, t1⟩ m e) (exec S pat fuel ⟨pc, cur, t2⟩ m e) := by
+  intro fuel
+  induction fuel with
+  | zero => intro pc cur t1 t2 m e _; exact .diverge
+  | succ fuel ih =>
+    intro pc cur t1 t2 m e hsz
+    have hr0 := SaveRel.refl hsz
+    cases hp : pat[pc]? with
+    | none => rw [exec_none (st := ⟨pc, cur, t1⟩) hp, exec_none (st := ⟨pc, cur, t2⟩) hp]; exact .ok _ _ _ rfl rfl hr0
+    | some a =>
+      have hanr : Scan.noRead a = true := List.all_eq_true.1 hnr a (List.mem_of_getElem? hp)
+      by_cases hc : isCtl a = true
+      · cases a <;> simp [isCtl] at hc
+        · -- push
+          rw [exec_push (st := ⟨pc, cur, t1⟩) hp, exec_push (st := ⟨pc, cur, t2⟩) hp]
+          have h := ih (pc + 1) cur t1 t2 255 0 hsz
+          simp only
+          generalize exec S pat fuel ⟨pc + 1, cur, t1⟩ 255 0 = o1 at h
+          generalize exec S pat fuel ⟨pc + 1, cur, t2⟩ 255 0 = o2 at h
+          cases h with
+          | ok b u1 u2 hpc hcur hrel =>
+            cases b
+            · exact .ok _ _ _ hpc hcur hrel
+            · obtain ⟨p1, c1, v1⟩ := u1
+              obtain ⟨p2, c2, v2⟩ := u2
+              simp only at hpc hcur hrel
+              subst hpc hcur
+              exact (ih _ _ _ _ _ _ hrel.1).lift hrel
+          | err e => exact .err e
+          | panic s => exact .panic s
+          | ub s => exact .ub s
+          | diverge => exact .diverge
+        · -- pop
+          rw [exec_pop (st := ⟨pc, cur, t1⟩) hp, exec_pop (st := ⟨pc, cur, t2⟩) hp]; exact .ok _ _ _ rfl rfl hr0
+        · -- many
+          rw [exec_many (st := ⟨pc, cur, t1⟩) hp, exec_many (st := ⟨pc, cur, t2⟩) hp]
+          unfold execMany
+          simp only
+          split
+          · exact .ok _ _ _ rfl rfl hr0
+          · split
+            · exact manyLoop_sim2 (fun pc cur a1 a2 h => ih pc cur a1 a2 255 0 h) _ _ _ _ _ _ hsz
+            · exact .panic _
+        · -- case
+          rw [exec_case (st := ⟨pc, cur, t1⟩) hp, exec_case (st := ⟨pc, cur, t2⟩) hp]
+          have h := ih (pc + 1) cur t1 t2 255 0 hsz
+          simp only
+          generalize exec S pat fuel ⟨pc + 1, cur, t1⟩ 255 0 = o1 at h
+          generalize exec S pat fuel ⟨pc + 1, cur, t2⟩ 255 0 = o2 at h
+          cases h with
+          | ok b u1 u2 hpc hcur hrel =>
+            obtain ⟨p1, c1, v1⟩ := u1
+            obtain ⟨p2, c2, v2⟩ := u2
+            simp only at hpc hcur hrel
+            subst hpc hcur
+            cases b
+            · exact (ih _ _ _ _ _ _ hrel.1).lift hrel
+            · exact (ih _ _ _ _ _ _ hrel.1).lift hrel
+          | err e => exact .err e
+          | panic s => exact .panic s
+          | ub s => exact .ub s
+          | diverge => exact .diverge
+        · -- break
+          rw [exec_brk (st := ⟨pc, cur, t1⟩) hp, exec_brk (st := ⟨pc, cur, t2⟩) hp]; exact .ok _ _ _ rfl rfl hr0
+      · have hc' : isCtl a = false := by simpa using hc
+        rw [exec_simple (st := ⟨pc, cur, t1⟩) hp hc', exec_simple (st := ⟨pc, cur, t2⟩) hp hc']
+        have h := step_sim2 (S := S) hanr (pc + 1) cur t1 t2 hsz m e
+        simp only
+        generalize step S a ⟨pc + 1, cur, t1⟩ m e = o1 at h
+        generalize step S a ⟨pc + 1, cur, t2⟩ m e = o2 at h
+        cases h with
+        | none => exact .ok _ _ _ rfl rfl hr0
+        | some u1 u2 m' e' hpc hcur hrel =>
+          obtain ⟨p1, c1, v1⟩ := u1
+          obtain ⟨p2, c2, v2⟩ := u2
+          simp only at hpc hcur hrel
+          subst hpc hcur
+          exact (ih _ _ _ _ _ _ hrel.1).lift hrel
+        | err e => exact .err e
+        | panic s => exact .panic s
+        | ub s => exact .ub s
+        | diverge => exact .diverge
+
+/-- `Scanner::exec` on a pattern without `Check` / `Pir`, on two save arrays of the same length:
+the same result, and the captures differ only in slots the execution does not write. -/
+theorem run_captures_indep (S : ScanI) (pat : List Atom) (hnr : pat.all Scan.noRead = true)
+    (c : Nat) (s1 s2 t1 : Array Nat) (hsz : s1.size = s2.size) (b : Bool) (h : run S pat c s1 = .ok (b, t1)) :
+    ∃ t2, run S pat c s2 = .ok (b, t2) ∧ SaveRel s1 s2 t1 t2 := by
+  have hs := exec_sim2 S pat hnr (fuelFor pat) 0 c s1 s2 255 0 hsz
+  unfold run at h ⊢
+  generalize exec S pat (fuelFor pat) ⟨0, c, s1⟩ 255 0 = o1 at hs h
+  generalize exec S pat (fuelFor pat) ⟨0, c, s2⟩ 255 0 = o2 at hs
+  cases hs with
+  | ok b' u1 u2 _ _ hrel =>
+    simp only [Out.ok.injEq, Prod.mk.injEq] at h
+    obtain ⟨rfl, rfl⟩ := h
+    exact ⟨u2.save, rfl, hrel⟩
+  | err e => cases h
+  | panic s => cases h
+  | ub s => cases h
+  | diverge => cases h
 
 end Pelite.Exec
